@@ -22,6 +22,11 @@ func init() {
 
 func runC07(p *eng.Prog, r *eng.Report, tier string) {
 	c := &cx{p, r, tier}
+	// C07.19 (= C09.17 / C10.10): no cycle in the lock-order graph: a deadlock between a
+	// writer and Close, or between the serve loop and a requester, ends every guarantee of this property
+	lockOrder(c, "C07.19")
+	// (no instance on today's tree: the routers end the stream on a malformed IQ; kept alive by the stored variant C07-r14-2)
+	c.r.Note("C07.18: %d answers written by multiplexer functions", c07RoutersAnswerRequestsOnly(c, "C07.18"))
 	c07Default(c)
 	c07Detector(c)
 	c07Fallback(c)
@@ -467,6 +472,36 @@ func (c *cx) onlyFactsReturnsAllow(id string, f *eng.Fn, allowed []string) {
 	for _, rs := range f.Graph().Returns {
 		c.onlyFacts(id, f, rs, "return", allowed)
 	}
+}
+
+// c07RoutersAnswerRequestsOnly (C07.18): the multiplexer sees every IQ, replies
+// included. Whatever it writes as an answer of its own (IQ.Error / IQ.Result of
+// the IQ it is routing) is written for a get or a set only: the call is
+// dominated by the exclusion of both reply types (or by a test for get / set).
+// A bad-request for "character data where the payload should be" that does not
+// look at the type answers a peer's result or error IQ.
+func c07RoutersAnswerRequestsOnly(c *cx, id string) int {
+	n := 0
+	for _, f := range c.allFns() {
+		if !strings.HasPrefix(f.Short, "mux.") {
+			continue
+		}
+		g := f.Graph()
+		for _, callee := range []string{"stanza.IQ.Error", "stanza.IQ.Result"} {
+			for _, cl := range f.Calls(callee) {
+				n++
+				pt, ok := c.site(id, f, cl, "answer written by the multiplexer")
+				if !ok {
+					continue
+				}
+				okBoth1, _ := g.Dominated(pt, "!eq(*.Type,stanza.ErrorIQ)")
+				okBoth2, _ := g.Dominated(pt, "!eq(*.Type,stanza.ResultIQ)")
+				okAny, _ := g.DominatedAny(pt, []string{"eq(*.Type,stanza.GetIQ)", "eq(*.Type,stanza.SetIQ)"})
+				c.r.Check(id, f, "answer written by the multiplexer", "G: an answer of the multiplexer's own is written for get / set only (both reply types excluded on every path)", cl.Pos(), (okBoth1 && okBoth2) || okAny, "the answer is written whatever the type of the IQ: a result or error IQ of the peer is answered")
+			}
+		}
+	}
+	return n
 }
 
 func c07Fallback(c *cx) {
